@@ -187,8 +187,9 @@ impl RADAU {
         // Adjust tolerances
         let expm = 2.0 / 3.0;
         let n = y.len();
-        let mut rtol = rtol;
-        let mut atol = atol;
+        // per-component copies: a scalar tolerance must be transformed once, not once per component
+        let mut rtol = Tolerance::Vector(rtol.iter(n).collect());
+        let mut atol = Tolerance::Vector(atol.iter(n).collect());
         for i in 0..n {
             let quot = atol[i] / rtol[i];
             rtol[i] = 0.1 * rtol[i].powf(expm);
